@@ -46,6 +46,8 @@ structure Mon where
   auditInFlight : Bool := false
   paused : Bool := false            -- between a pause event and its resume event
   expectPause : Bool := false       -- an effective Pause() call has been made; its pause event is due
+  flushHeld : Bool := false         -- a Flush() call was made while the loop could not serve it (paused, or not started yet)
+  expectCycleAt : Option Nat := none  -- … so a cycle is owed at this instant (resume / start): with work buffered and nothing to hold it back a batch must appear
   stopAsked : Bool := false   -- an audit reset happened while an Enqueue was inside the library (finding F9)
 
 def Mon.add (m : Mon) (p r : String) : Mon :=
@@ -70,6 +72,14 @@ def monitorHist (sc : HScn) (entries : List String) : List (String × String) :=
     let a3 := f.getD 3 ""
     let n2 := (a2.toNat?).getD 0
     let n3 := (a3.toNat?).getD 0
+    -- C08: a Flush() made during a pause (or before Start) is served as soon as the loop is free
+    let owedPast : Bool := match m.expectCycleAt with | some t0 => decide (t > t0) | none => false
+    let owedMissed : Bool := match m.expectCycleAt with
+      | some t0 => decide (t > t0) && !(m.batches.any fun b => b.raisedAt == t0) && m.shutdownAt.isNone && !m.stopAsked
+      | none => false
+    if owedMissed == true then
+      m := m.add "C08" "flush-call-made-while-paused-or-before-start-not-served-when-the-loop-became-free"
+    if owedPast == true then m := { m with expectCycleAt := none }
     if kind == "call" then
       let cost := match m.costs.lookup n3 with | some v => v | none => (sc.ops[n3]?.map (·.cost)).getD 0
       m := { m with calls := m.calls.push { k := n2, obj := n3, cost := cost, t := t, freeAt := t } }
@@ -103,13 +113,20 @@ def monitorHist (sc : HScn) (entries : List String) : List (String × String) :=
         -- effective iff the Batcher is running and not paused (and nobody is stopping it concurrently)
         let eff := m.started.isSome && !m.paused && m.shutdownAt.isNone && !m.stopAsked && !m.expectPause
         m := { m with pauseCalls := m.pauseCalls + 1, expectPause := m.expectPause || eff }
+      else if a2 == "F" then
+        if (m.paused || m.started.isNone) && m.shutdownAt.isNone then m := { m with flushHeld := true }
       else if a2 == "X" then m := { m with stopAsked := true }
       else if a2 == "k" then m := { m with stale := true, costs := (n3, ((f.getD 4 "").toNat?).getD 0) :: m.costs }
       else if a2 == "S" then
         if a3 == "ok" then
           if m.startOk > 0 then m := m.add "C16" "start-succeeds-twice"
-          m := { m with startOk := m.startOk + 1, started := some t }
-        else if m.startOk == 0 then m := m.add "C16" "first-start-fails"
+          if (!sc.c.limited && sc.c.mcb == 0 && sc.emitBatch && m.flushHeld &&
+          (m.calls.any fun c => c.res == some "ok" && c.delivered.isNone)) then m := { m with expectCycleAt := some t }
+          m := { m with startOk := m.startOk + 1, started := some t, flushHeld := false }
+        else if m.startOk == 0 then
+          m := m.add "C16" "first-start-fails"
+          -- C13: a Pause() before Start has no effect - in particular it does not keep the Batcher from starting
+          if m.pauseCalls > 0 then m := m.add "C13" "pause-before-start-has-an-effect"
     else if kind == "giveme" then
       if !sc.c.limited then m := m.add "C12" "request-without-limiter"
       if m.shutdownAt.isSome then m := m.add "C12" "request-after-shutdown" |>.add "C16" "request-after-shutdown"
@@ -151,7 +168,9 @@ def monitorHist (sc : HScn) (entries : List String) : List (String × String) :=
         m := { m with pauseAt := some t, pauseEvents := m.pauseEvents + 1, paused := true, expectPause := false }
         if m.pauseEvents > m.pauseCalls then m := m.add "C13" "more-pauses-than-effective-calls"
       else if a2 == "resume" then
-        m := { m with paused := false }
+        if (!sc.c.limited && sc.c.mcb == 0 && sc.emitBatch && m.flushHeld &&
+          (m.calls.any fun c => c.res == some "ok" && c.delivered.isNone)) then m := { m with expectCycleAt := some t }
+        m := { m with paused := false, flushHeld := false }
         match m.pauseAt with
         | some p => if t != p + sc.c.pause then m := m.add "C13" "resume-not-exactly-pausetime-after-pause"
         | none => m := m.add "C13" "resume-without-pause"
@@ -321,7 +340,9 @@ def checkHist (inp obs : KV) : Option String × List (String × String) :=
   if obs.has "hang" then
     -- the process stopped making progress in real time: goroutines blocked on a mutex / WaitGroup for good
     (some ("fields=hang " ++ obs.get "hang"),
-      [("C16", "does-not-terminate:" ++ obs.get "hang"), ("C20", "deadlock:" ++ obs.get "hang")]) else
+      [("C16", "does-not-terminate:" ++ obs.get "hang"), ("C20", "deadlock:" ++ obs.get "hang")] ++
+      (if ((obs.get "hang").splitOn "Pause").length > 1 || ((obs.get "hang").splitOn "resume").length > 1
+        then [("C13", "pause-or-resume-blocks-for-ever:" ++ obs.get "hang")] else [])) else
   let sc := parseHScn inp
   let entries := if obs.get "tr" == "-" || obs.get "tr" == "" then [] else (obs.get "tr").splitOn ";"
   -- without WithEmitBatch() the trace does not say what each cycle raised: no acceptance, the monitors alone judge it
